@@ -114,6 +114,12 @@ def runOp : P String := do
     match graphFromFileContent t with
     | .ok g => pure (showGraph g)
     | .error e => pure (showErr e)
+  | "FILEPATH" =>
+    let sfx ← str
+    let t ← str
+    match graphFromFile sfx t with
+    | .ok g => pure (showGraph g)
+    | .error e => pure (showErr e)
   | "SPLICE" =>
     let ls ← strList
     match concatLinesWithDash ls with
